@@ -364,7 +364,10 @@ class PoolProp:
                     known_hits[sig] = known[sig]
                 elif prop_fail is None:
                     prop_fail = (case, detail, sig)
-            if corr_fail is None:
+            if getattr(cfg, "oracle_only", False):
+                # a use the model does not express (see the Cfg class): the implementation alone, judged by the oracle
+                report.count("oracle-only")
+            elif corr_fail is None:
                 diff = self.compare(cfg, status, schedule, steps, env)
                 if diff is not None:
                     corr_fail = (case, diff)
